@@ -1,4 +1,453 @@
 package main
 
-func (rn *runner) c16Main()        {}
-func (rn *runner) c16One(c *Case) {}
+// C16: UpdateScripts.  Generated scripts with 1-5 golden entries that are compared with
+// actual contents coming from the helper's stdout, stderr or files; the script file is
+// compared before/after (parsed with txtar.Parse), the verdict of the update run and of a
+// second run without UpdateScripts are checked, and everything is compared with the model.
+
+import (
+	"bytes"
+	"fmt"
+	"strings"
+	"sync"
+
+	"github.com/rogpeppe/go-internal/txtar"
+
+	"verif/harness/common"
+)
+
+// the Result is not concurrent: C16 cases are judged by several workers through these
+var resMu sync.Mutex
+
+func (rn *runner) count(b string) {
+	resMu.Lock()
+	rn.res.Count(b)
+	resMu.Unlock()
+}
+func (rn *runner) violate(v common.Violation) {
+	resMu.Lock()
+	rn.res.Violate(v)
+	resMu.Unlock()
+}
+
+// what the generator knows about a C16 case by construction
+type c16Expect struct {
+	Updates   map[string]string // entry name -> actual text recorded (the last one wins)
+	FailLines []int             // lines that fail by construction (cmp outside the archive, cmpenv, negated cmp of equal texts)
+	Known     bool              // false: odd paths, the direct oracle does not judge
+	Rerun     bool              // every golden entry is compared once: the re-run is a fix-point
+}
+
+var c16Contents = []string{
+	"alpha\n", "alpha beta\ngamma\n", "", "-- a --\n", "x\n-- marker.txt --\ny\n", "-- not a marker\n", "--  --\n", ">quoted\n",
+	"no final newline", "-- a --", "line1\nline2", "\n", "\n\n", "-- g1.txt --\n", " -- a --\n", "$X and ${Y}\n", "tab\there\n",
+}
+
+// producer returns the script lines that make `src` (stdout | stderr | a file name) hold text.
+func c16Producer(r *common.RNG, text string, i int) (lines []string, src string) {
+	h := helperName
+	nl := strings.HasSuffix(text, "\n")
+	body := strings.TrimSuffix(text, "\n")
+	multi := strings.Contains(body, "\n")
+	file := fmt.Sprintf("act%d.txt", i)
+	switch {
+	case text == "":
+		switch r.Intn(3) {
+		case 0:
+			return []string{"exec " + h + " echoerr nothing-on-stdout"}, "stdout"
+		case 1:
+			return []string{"exec " + h + " echo nothing-on-stderr"}, "stderr"
+		}
+		return []string{"exec " + h + " writeraw " + file + " ''"}, file
+	case nl && !multi && !strings.ContainsAny(body, "\t") && body != "" && !strings.HasPrefix(body, " ") && !strings.Contains(body, "  "):
+		// one line: echo / echoerr / write
+		ws := c16Words(body)
+		switch r.Intn(3) {
+		case 0:
+			return []string{"exec " + h + " echo " + ws}, "stdout"
+		case 1:
+			return []string{"exec " + h + " echoerr " + ws}, "stderr"
+		}
+		return []string{"exec " + h + " write " + file + " " + ws}, file
+	case nl && !strings.Contains(body, "\n\n") && body != "" && !strings.HasPrefix(body, "\n") && !strings.HasSuffix(body, "\n"):
+		// several lines: lines w1 w2 ...
+		var ws []string
+		for _, l := range strings.Split(body, "\n") {
+			ws = append(ws, c16Quote(l))
+		}
+		return []string{"exec " + h + " lines " + strings.Join(ws, " ")}, "stdout"
+	case !strings.Contains(text, "\n"):
+		switch r.Intn(3) {
+		case 0:
+			return []string{"exec " + h + " print " + c16Quote(text)}, "stdout"
+		case 1:
+			return []string{"exec " + h + " printerr " + c16Quote(text)}, "stderr"
+		}
+		return []string{"exec " + h + " writeraw " + file + " " + c16Quote(text)}, file
+	default:
+		// anything else: build it in a file line by line is not possible in one word (no
+		// newline inside a script word), so assemble it with lines + print through cp
+		var out []string
+		parts := strings.SplitAfter(text, "\n")
+		// write each part to its own file, then concatenate through stdin/cat is not available:
+		// use lines for the newline-terminated prefix and give up the rest
+		var ws []string
+		for _, p := range parts {
+			if strings.HasSuffix(p, "\n") {
+				ws = append(ws, c16Quote(strings.TrimSuffix(p, "\n")))
+			}
+		}
+		out = append(out, "exec "+h+" lines "+strings.Join(ws, " "))
+		return out, "stdout"
+	}
+}
+
+func c16Quote(w string) string { return "'" + strings.ReplaceAll(w, "'", "''") + "'" }
+
+func c16Words(body string) string {
+	var ws []string
+	for _, w := range strings.Split(body, " ") {
+		ws = append(ws, c16Quote(w))
+	}
+	return strings.Join(ws, " ")
+}
+
+// what the producer really produces (the default branch of c16Producer is lossy)
+func c16Produced(text string) string {
+	nl := strings.HasSuffix(text, "\n")
+	body := strings.TrimSuffix(text, "\n")
+	switch {
+	case text == "":
+		return ""
+	case nl && !strings.Contains(body, "\n") && !strings.ContainsAny(body, "\t") && body != "" && !strings.HasPrefix(body, " ") && !strings.Contains(body, "  "):
+		return text
+	case nl && !strings.Contains(body, "\n\n") && body != "" && !strings.HasPrefix(body, "\n") && !strings.HasSuffix(body, "\n"):
+		return text
+	case !strings.Contains(text, "\n"):
+		return text
+	}
+	var b strings.Builder
+	for _, p := range strings.SplitAfter(text, "\n") {
+		if strings.HasSuffix(p, "\n") {
+			b.WriteString(p)
+		}
+	}
+	return b.String()
+}
+
+func genC16(r *common.RNG, id string) (*Case, *c16Expect) {
+	c := &Case{ID: id, Kind: "c16", Upd: true, Coe: r.Chance(1, 2), Cmds: r.Chance(1, 3)}
+	ex := &c16Expect{Updates: map[string]string{}, Known: true}
+	n := 1 + r.Intn(5)
+	goldenNames := []string{"g1.txt", "g2.txt", "golden/g3.txt", "g4.golden", "golden/deep/g5.txt"}
+	golden := map[string]string{}
+	var order []string
+	for i := 0; i < n; i++ {
+		name := goldenNames[i]
+		if r.Chance(1, 12) && i > 0 {
+			name = goldenNames[r.Intn(i)] // a duplicate entry name
+		}
+		text := pick(r, c16Contents)
+		if text != "" && !strings.HasSuffix(text, "\n") {
+			text += "\n" // goldens in the file are newline-terminated (Parse would add it anyway)
+		}
+		if txtar.NeedsQuote([]byte(text)) {
+			text = "plain golden\n"
+		}
+		c.Files = append(c.Files, AFile{Name: name, Data: text})
+		golden[name] = text // with duplicates the last one is what is on disk
+		order = append(order, name)
+	}
+	// an unrelated entry that must never change
+	if r.Chance(1, 2) {
+		c.Files = append(c.Files, AFile{Name: "other.txt", Data: "untouched\n-- not a marker\n"})
+	}
+	failed := false
+	ex.Rerun = true
+	refs := map[string]int{}
+	for _, name := range order {
+		if refs[name]++; refs[name] > 1 {
+			ex.Rerun = false // compared twice: one entry cannot match two actual contents
+		}
+	}
+	for i, name := range order {
+		if failed && !c.Coe {
+			break
+		}
+		want := golden[name]
+		kind := r.Intn(10)
+		var actual string
+		switch kind {
+		case 0, 1: // matching
+			actual = want
+		default:
+			actual = pick(r, c16Contents)
+		}
+		if c16Produced(actual) != actual {
+			actual = c16Produced(actual)
+		}
+		lines, src := c16Producer(r, actual, i)
+		c.Lines = append(c.Lines, lines...)
+		ref := name
+		switch r.Intn(6) {
+		case 0:
+			ref = "$WORK/" + name
+		case 1:
+			ref = "./" + name
+		}
+		lineNo := len(c.Lines) + 1
+		switch kind {
+		case 0, 1, 2, 3, 4, 5: // plain cmp against the archive entry
+			c.Lines = append(c.Lines, "cmp "+src+" "+ref)
+			if actual != want {
+				ex.Updates[name] = actual
+			}
+		case 6: // against a copy outside the archive
+			c.Lines = append(c.Lines, "cp "+name+" copy"+fmt.Sprint(i)+".txt")
+			lineNo++
+			c.Lines = append(c.Lines, "cmp "+src+" copy"+fmt.Sprint(i)+".txt")
+			if actual != want {
+				ex.FailLines = append(ex.FailLines, lineNo)
+				failed = true
+			}
+		case 7: // cmpenv never updates
+			c.Lines = append(c.Lines, "cmpenv "+src+" "+ref)
+			if strings.Contains(want, "$") {
+				ex.Known = false
+			}
+			if actual != want {
+				ex.FailLines = append(ex.FailLines, lineNo)
+				failed = true
+			}
+		case 8, 9: // negated cmp never updates
+			c.Lines = append(c.Lines, "! cmp "+src+" "+ref)
+			if actual == want {
+				ex.FailLines = append(ex.FailLines, lineNo)
+				failed = true
+			}
+		}
+		if r.Chance(1, 6) && c.Cmds {
+			c.Lines = append(c.Lines, fmt.Sprintf("probe after-%d", i))
+		}
+	}
+	if r.Chance(1, 10) {
+		c.Lines = append(c.Lines, pick(r, []string{"stop", "skip"}))
+	}
+	return c, ex
+}
+
+func sameArchiveBut(before, after *txtar.Archive, updated map[string][]byte) string {
+	if !bytes.Equal(before.Comment, after.Comment) {
+		return "script-text-changed"
+	}
+	if len(before.Files) != len(after.Files) {
+		return "entry-count-changed"
+	}
+	for i := range before.Files {
+		b, a := before.Files[i], after.Files[i]
+		if b.Name != a.Name {
+			return "entry-names-or-order-changed"
+		}
+		if want, ok := updated[b.Name]; ok {
+			if !bytes.Equal(a.Data, want) {
+				return "updated-entry-wrong-content"
+			}
+		} else if !bytes.Equal(a.Data, b.Data) {
+			return "untouched-entry-changed"
+		}
+	}
+	return ""
+}
+
+// c16Oracle judges one update run (and the rerun) without the model.
+func (rn *runner) c16Oracle(c *Case, ex *c16Expect, o *Obs) (string, string) {
+	before := txtar.Parse(c.fileBytes())
+	after := txtar.Parse(o.FileAfter)
+	if !ex.Known {
+		return "", ""
+	}
+	// what must be stored
+	stored := map[string][]byte{}
+	unquotable := false
+	representable := true
+	for name, text := range ex.Updates {
+		data := []byte(text)
+		if txtar.NeedsQuote(data) {
+			representable = false
+			q, err := txtar.Quote(data)
+			if err != nil {
+				unquotable = true
+				continue
+			}
+			data = q
+		} else if text != "" && !strings.HasSuffix(text, "\n") {
+			representable = false
+			data = append(data, '\n') // Parse of the written file adds it
+		}
+		stored[name] = data
+	}
+	if unquotable {
+		// txtar.Quote refuses: nothing may be written
+		if !bytes.Equal(o.FileAfter, c.fileBytes()) {
+			return "unquotable-update-must-not-write", "the file changed although an updated content cannot be quoted"
+		}
+		return "", ""
+	}
+	if d := sameArchiveBut(before, after, stored); d != "" {
+		return d, fmt.Sprintf("expected updates %q", ex.Updates)
+	}
+	if len(ex.Updates) == 0 && !bytes.Equal(o.FileAfter, c.fileBytes()) {
+		return "file-rewritten-without-update", ""
+	}
+	wantVerdict := "pass"
+	if len(ex.FailLines) > 0 {
+		wantVerdict = "fail"
+	} else if len(c.Lines) > 0 && strings.HasPrefix(c.Lines[len(c.Lines)-1], "skip") {
+		wantVerdict = "skip"
+	}
+	if o.Verdict != wantVerdict {
+		return "update-run-verdict", fmt.Sprintf("want %s, got %s", wantVerdict, o.Verdict)
+	}
+	if wantVerdict == "fail" {
+		want := ex.FailLines
+		if !c.Coe {
+			want = want[:1]
+		}
+		if !eqInts(o.FailLines, want) {
+			return "update-run-fail-lines", fmt.Sprintf("want %v, got %v", want, o.FailLines)
+		}
+	}
+	// second run, without UpdateScripts, on the updated file
+	if wantVerdict != "fail" && representable && ex.Rerun {
+		c2 := *c
+		c2.Upd = false
+		c2.ID = c.ID + "-rerun"
+		a := txtar.Parse(o.FileAfter)
+		c2.Lines = strings.Split(strings.TrimSuffix(string(a.Comment), "\n"), "\n")
+		c2.Files = nil
+		for _, f := range a.Files {
+			c2.Files = append(c2.Files, AFile{Name: f.Name, Data: string(f.Data)})
+		}
+		if !bytes.Equal(c2.fileBytes(), o.FileAfter) {
+			return "", "" // not reproducible through Case (should not happen)
+		}
+		r2 := rn.run(&c2)
+		if r2.o.Verdict != wantVerdict {
+			return "rerun-verdict", fmt.Sprintf("second run without UpdateScripts: want %s, got %s\n%s", wantVerdict, r2.o.Verdict, tail(r2.o.Log, 600))
+		}
+		if !bytes.Equal(r2.o.FileAfter, o.FileAfter) {
+			return "rerun-changed-file", ""
+		}
+		if d := corrDiff(&c2, r2.o, r2.m); d != "" {
+			rn.count("mismatch:rerun-" + d)
+			rn.violate(common.Violation{Kind: "correspondence", Oracle: "rerun-" + d, Input: rn.input(&c2), Key: "c16-rerun:" + d + ":" + c.ID,
+				Impl: fmt.Sprintf("verdict=%s FAIL-lines=%v", r2.o.Verdict, r2.o.FailLines), Model: r2.m.Raw[:min(400, len(r2.m.Raw))]})
+		}
+		rn.count("c16:rerun-checked")
+	}
+	return "", ""
+}
+
+func (rn *runner) c16Judge(c *Case, ex *c16Expect) {
+	oc := rn.run(c)
+	o, m := oc.o, oc.m
+	rn.count("c16:update-run-verdict:" + o.Verdict)
+	rn.count(fmt.Sprintf("c16:entries=%d", len(c.Files)))
+	if ex != nil {
+		rn.count(fmt.Sprintf("c16:expected-updates=%d", len(ex.Updates)))
+		if len(ex.FailLines) > 0 {
+			rn.count("c16:has-failing-compare")
+		}
+	}
+	changed := !bytes.Equal(o.FileAfter, c.fileBytes())
+	if changed {
+		rn.count("c16:file-rewritten")
+	}
+	if m.Change == "error" {
+		rn.count("c16:model-says-unquotable")
+	}
+	resMu.Lock()
+	rn.res.Case(fmt.Sprintf("%s|%v|%s", o.Verdict, changed, string(c.fileBytes())), changed || len(c.Files) > 1)
+	if rn.seq++; rn.seq%41 == 1 {
+		rn.res.Sample(map[string]any{"script": string(c.fileBytes()), "after": string(o.FileAfter), "verdict": o.Verdict, "params": rn.input(c)["params"]})
+	}
+	resMu.Unlock()
+	if ex != nil {
+		if d, detail := rn.c16Oracle(c, ex, o); d != "" {
+			rn.count("oracle-fails:" + d)
+			// twice more, against flakes
+			again := rn.run(c)
+			if d2, _ := rn.c16Oracle(c, ex, again.o); d2 != "" {
+				rn.violate(common.Violation{Kind: "impl-violation", Oracle: d, Input: rn.input(c), Key: "c16:" + d + ":" + strings.Join(c.Lines, ";"),
+					Impl:   fmt.Sprintf("verdict=%s FAIL-lines=%v file after:\n%s", o.Verdict, o.FailLines, o.FileAfter),
+					Model:  fmt.Sprintf("by construction: updates %q, failing lines %v", ex.Updates, ex.FailLines),
+					Detail: "property C16 evaluated directly on the implementation: " + detail + "\nlog:\n" + tail(o.Log, 800)})
+			}
+		}
+	}
+	// model
+	if m.Racy || m.Unmod {
+		rn.count("model:racy-or-unmodelled-not-compared")
+		return
+	}
+	d := ""
+	if m.Change == "error" {
+		if o.Verdict != "PANIC" || changed {
+			d = "unquotable-update"
+		}
+	} else {
+		d = corrDiff(c, o, m)
+	}
+	if d != "" {
+		rn.count("mismatch:" + d)
+		again := rn.run(c)
+		if m.Change != "error" && corrDiff(c, again.o, again.m) == "" {
+			rn.count("mismatch-flake")
+			return
+		}
+		rn.violate(common.Violation{Kind: "correspondence", Oracle: d, Input: rn.input(c), Key: "c16-corr:" + d + ":" + strings.Join(c.Lines, ";"),
+			Impl:   fmt.Sprintf("verdict=%s FAIL-lines=%v panic=%q file after=%q", o.Verdict, o.FailLines, o.PanicVal, o.FileAfter),
+			Model:  fmt.Sprintf("verdict=%s fail-lines=%v change=%q", m.Verdict, m.FailLines, string(common.UnHex(strings.Replace(strings.Replace(m.Change, "untouched", "-", 1), "error", "-", 1)))),
+			Detail: "model and implementation differ\nlog:\n" + tail(o.Log, 800)})
+	}
+}
+
+func (rn *runner) c16One(c *Case) {
+	c.Upd = true
+	rn.c16Judge(c, nil)
+}
+
+func (rn *runner) c16Main() {
+	f := rn.f
+	for _, c := range loadCorpus(f.Corpus) {
+		c.Upd = true
+		rn.c16Judge(c, nil)
+	}
+	r := common.NewRNG(f.Seed).Fork()
+	n := 500
+	if f.Tier == "thorough" {
+		n = 12000
+	}
+	type job struct {
+		c  *Case
+		ex *c16Expect
+	}
+	jobs := make(chan job)
+	var wg sync.WaitGroup
+	for w := 0; w < 16; w++ {
+		wg.Add(1)
+		go func() {
+			defer wg.Done()
+			for j := range jobs {
+				rn.c16Judge(j.c, j.ex)
+			}
+		}()
+	}
+	for i := 0; i < n; i++ {
+		c, ex := genC16(r.Fork(), fmt.Sprintf("u%05d", i))
+		jobs <- job{c, ex}
+	}
+	close(jobs)
+	wg.Wait()
+	rn.res.Rule = fmt.Sprintf("corpus, then %d generated scripts with 1-5 golden entries (matching / mismatching / outside the archive / cmpenv / negated; duplicate names; actual contents from helper stdout, stderr and files incl. marker look-alikes, no final newline, empty), UpdateScripts=true, then a second run without it when the content is representable; non-trivial = the file was rewritten or there are >= 2 entries", n)
+}
